@@ -123,6 +123,119 @@ def wf_json(shape, cards, code) -> bool:
     return wf(rt.json_transform(JSONReader, to_json(m)))
 
 
+# JSON reference documents: written from the format as the reader defines it (n-ary AND / OR / XOR terms,
+# relation types, attributes with and without value), not by the library's writer
+JSON_REL = {'mandatory': 'MANDATORY', 'optional': 'OPTIONAL', 'alternative': 'XOR', 'or': 'OR', 'mutex': 'MUTEX', 'cardinality': 'CARDINALITY', 'none': 'CARDINALITY'}
+
+
+def json_emit(shape, cards, names, abstract, trees, opts):
+    rels = R.relations_of(shape)
+    rbp = R.rels_by_parent(shape)
+
+    def term(t):
+        if not isinstance(t, tuple):
+            return {'type': 'FEATURE', 'operands': [t]}
+        return {'type': t[0], 'operands': [term(x) for x in t[1:]]}
+
+    def feat(i):
+        node = {'name': names[i], 'abstract': ('True' if abstract[i] else 'False') if opts.get('abstract_text') else bool(abstract[i])}
+        rl = []
+        for ri in rbp[i]:
+            mn, mx = cards[ri]
+            cs = rels[ri][1]
+            kind = R.rel_class(mn, mx, len(cs))
+            if opts.get('all_cardinality'):
+                kind = 'cardinality'
+            r = {'type': JSON_REL[kind], 'children': [feat(c) for c in cs]}
+            if kind in ('cardinality', 'none') or opts.get('cards_everywhere'):
+                r['card_min'], r['card_max'] = mn, mx
+            rl.append(r)
+        if rl or not opts.get('omit_empty'):
+            node['relations'] = rl
+        if i == 0:
+            node['attributes'] = [{'name': 'cost', 'value': 3}, {'name': 'flag'}]
+        return node
+    return {'features': feat(0), 'constraints': [{'name': 'k%d' % i, 'ast': term(t)} for i, t in enumerate(trees)]}
+
+
+def json_ref_trees(n, code):
+    """n-ary AND / OR / XOR terms over distinct operands, arity 1..min(n, 6), top level and nested."""
+    if n < 2:
+        return []
+    sets = c09.nary_sets(n)[1:]
+    trees = list(sets[code % len(sets)])
+    nm = ['F%d' % i for i in range(n)]
+    if n >= 3:
+        trees.append(('XOR',) + tuple(nm[:min(n, 5)]))
+        trees.append(('REQUIRES', ('XOR',) + tuple(nm[1:min(n, 4)]), ('NOT', ('OR',) + tuple(nm[:3]))))
+    return trees
+
+
+def _fold(t):
+    """meaning of an n-ary AND / OR / XOR term: left fold; a single operand stands for itself."""
+    if not isinstance(t, tuple):
+        return t
+    args = [_fold(x) for x in t[1:]]
+    if t[0] in ('AND', 'OR', 'XOR'):
+        acc = args[0]
+        for a in args[1:]:
+            acc = (t[0], acc, a)
+        return acc
+    return (t[0],) + tuple(args)
+
+
+def json_ref_problems(shape, cards, code, opts) -> list:
+    n = R.n_features(shape)
+    names = ['F%d' % i for i in range(n)]
+    trees = json_ref_trees(n, code)
+    doc = json_emit(shape, cards, names, [i % 2 == 1 for i in range(n)], trees, opts)
+    got = rt.json_transform(JSONReader, doc)
+    out = wellformed(got, expect_names=[R.tree_names(t) for t in trees])
+    want = R.build(shape, cards, names=names, abstract=[i % 2 == 1 for i in range(n)], ctcs=[R.ctc('k%d' % i, _fold(t)) for i, t in enumerate(trees)])
+    if rt.tree_snapshot(got, attrs=False, types=False) != rt.tree_snapshot(want, attrs=False, types=False):
+        out.append('tree read from the JSON reference document differs from the tree it describes')
+    if not rt.ctcs_equivalent(want, got, same_names=True):
+        out.append('a constraint read from the JSON reference document is not equivalent to the n-ary term written (left fold)')
+    return out
+
+
+def wf_json_ref(shape, cards, code, oa, ob, oc) -> bool:
+    return not json_ref_problems(shape, cards, code, {'abstract_text': oa, 'cards_everywhere': ob, 'omit_empty': oc})
+
+
+def replay_json_ref(shape, cards, code, opts):
+    shape = totuple(shape)
+    cards = [tuple(c) for c in cards]
+    try:
+        bad = json_ref_problems(shape, cards, code, opts)
+    except Exception as exc:
+        bad = ['JSON reader raises %s: %s' % (type(exc).__name__, exc)]
+    return ['%s | shape %s cards %r constraints %r opts %r' % (b, R.shape_str(shape), cards, json_ref_trees(R.n_features(shape), code), opts) for b in bad]
+
+
+def batch_json_ref(max_n, seed):
+    import random as _r
+    rnd = _r.Random(seed)
+    res = {'instances': 0, 'nontrivial': 0, 'violations': [], 'native_runs': 0}
+    for shape in R.shapes(max_n):
+        n = R.n_features(shape)
+        allc = list(R.all_cards(shape))
+        for cards in (allc if len(allc) <= 6 else rnd.sample(allc, 6)):
+            for code in range(len(c09.nary_sets(n)) - 1 if n >= 2 else 1):
+                opts = {k: rnd.random() < 0.5 for k in ('abstract_text', 'cards_everywhere', 'omit_empty', 'all_cardinality')}
+                args = [shape, cards, code, opts]
+                res['instances'] += 1
+                res['native_runs'] += 1
+                res['nontrivial'] += 1
+                bad = replay_json_ref(*args)
+                if bad:
+                    res['violations'].append({'label': 'json-reference-document', 'detail': bad[0][:600], 'replay_func': 'replay_json_ref', 'replay_args': args})
+                    if len(res['violations']) >= 4:
+                        return res
+                res['sample'] = {'shape': R.shape_str(shape), 'cards': cards, 'constraints': json_ref_trees(n, code)}
+    return res
+
+
 def wf_glencoe(shape, cards, code) -> bool:
     m = c08.make(shape, cards, ctc_code=code)
     d = glencoe_to_json(m)
@@ -333,6 +446,11 @@ def conditions(tier, seed):
             conds.append(Cond(name='c02_%s_%d' % (name, si), imports=imp, params=cp, pre=pre, body=body, timeout=T, aspect=aspect,
                               sample={'shape': R.shape_str(shape), 'symbolic': 'all (min,max)', 'reader': name}, validate=val))
         add('json', 'P.wf_json(SHAPE_%d, %s, %d)' % (si, cexpr, code), cpre, [dc], 'JSON reader result is a well-formed tree (dict level)')
+        conds.append(Cond(name='c02_jsonref_%d' % si, imports=imp, params=cp + ', oa: bool, ob: bool, oc: bool', pre=cpre,
+                          body='P.wf_json_ref(SHAPE_%d, %s, %d, oa, ob, oc)' % (si, cexpr, si + seed), timeout=T,
+                          aspect='JSON reader (real transform) on a reference document with n-ary AND / OR / XOR terms: well-formed, get_features == names written, equivalent to the left fold',
+                          sample={'shape': R.shape_str(shape), 'symbolic': 'all (min,max), three surface Booleans', 'reader': 'json-reference'},
+                          validate=[dc + (False, False, False), dc + (True, True, True)]))
         add('fama', 'P.wf_fama(SHAPE_%d, %s, %d)' % (si, cexpr, si % 3), cpre, [dc], 'FaMa XML reader result is a well-formed tree (Element level)')
         if c08.in_fragment_shape(shape):
             fc = c08.fragment_cards(shape)
@@ -362,6 +480,7 @@ def batches(tier, seed):
     nt = len(rt.ctc_family(['AND', 'OR', 'XOR', 'IMPLIES', 'EQUIVALENCE', 'REQUIRES', 'EXCLUDES'], ['F0', 'F1'] if not full else ['F0', 'F1', 'F2'], full))
     st = nt // 14 + 1
     b += [('batch_trees', [lo, lo + st, full]) for lo in range(0, nt, st)]
+    b.append(('batch_json_ref', [4 if tier == 'quick' else 5, seed]))
     return b
 
 
